@@ -121,6 +121,11 @@ func (d *PathDecoder) candidatesFromHooks(ctx context.Context, attr *hclsyntax.A
 		// Since text edits only support a single line, we're resetting the End
 		// position here.
 		editRng.End = pos
+		if pos.Byte < editRng.Start.Byte {
+			// position in front of the (empty) expression,
+			// e.g. right after the equals sign
+			editRng.Start = pos
+		}
 	}
 	prefixRng := attr.Expr.Range()
 	prefixRng.End = pos
